@@ -39,6 +39,8 @@ pub enum RuntimeErrorKind {
     /// Type mismatch error that can't be caught in semantic analysis
     TypeMismatch,
     InvalidIndex,
+    /// A variable was used before the statement that declares it ran
+    UndeclaredVariable,
     ProcessUnsupported,
     ProcessDenied,
     ProcessSpawnFailed(&'static str),
@@ -57,6 +59,7 @@ impl AsStr for RuntimeErrorKind {
             RuntimeErrorKind::IndexOutOfBounds => "Index out of bounds",
             RuntimeErrorKind::TypeMismatch => "Type mismatch",
             RuntimeErrorKind::InvalidIndex => "Invalid index",
+            RuntimeErrorKind::UndeclaredVariable => "Undeclared variable",
             RuntimeErrorKind::ProcessUnsupported => "Unsupported process execution",
             RuntimeErrorKind::ProcessDenied => "Process execution denied",
             RuntimeErrorKind::ProcessSpawnFailed(..) => "Process spawn failed",
@@ -406,6 +409,10 @@ impl<'a> Runtime<'a> {
                         span: err.span,
                         message: ArenaCow::Borrowed("Index value no be whole number"),
                     }],
+                    RuntimeErrorKind::UndeclaredVariable => vec![Label {
+                        span: err.span,
+                        message: ArenaCow::Borrowed("Dis variable never dey declared yet"),
+                    }],
                     RuntimeErrorKind::ProcessUnsupported => vec![Label {
                         span: err.span,
                         message: ArenaCow::Borrowed("Dis platform no support process execution"),
@@ -452,12 +459,12 @@ impl<'a> Runtime<'a> {
                 }
                 Ok(ExecFlow::Continue)
             }
-            Stmt::AssignExisting { var, expr, .. } => {
+            Stmt::AssignExisting { var, var_span, expr, .. } => {
                 let val = self.eval_expr(expr)?;
                 if let Some(local) = self.bound_stmt_local(stmt) {
-                    self.assign_bound_local(local, val);
+                    self.assign_bound_local(local, val, *var_span)?;
                 } else {
-                    self.assign_var(var, val);
+                    self.assign_var(var, val, *var_span)?;
                 }
                 Ok(ExecFlow::Continue)
             }
@@ -614,7 +621,7 @@ impl<'a> Runtime<'a> {
             Expr::Number(n, ..) => Ok(Value::Number(
                 n.parse::<f64>().expect("Scanner should guarantee valid number format"),
             )),
-            Expr::String { parts, .. } => Ok(self.eval_string_expr(expr, parts)),
+            Expr::String { parts, .. } => self.eval_string_expr(expr, parts),
             Expr::Bool(b, ..) => Ok(Value::Bool(*b)),
             Expr::Null(..) => Ok(Value::Null),
             Expr::Var(v, ..) => {
@@ -624,7 +631,9 @@ impl<'a> Runtime<'a> {
                 } else {
                     self.lookup_var(v, frame)
                 }
-                .expect("Semantic analysis should guarantee all variables are declared");
+                .ok_or_else(|| {
+                    RuntimeError::new(RuntimeErrorKind::UndeclaredVariable, expr.span())
+                })?;
                 Ok(val)
             }
             Expr::Binary { op, lhs, rhs, span } => match op {
@@ -1313,7 +1322,7 @@ impl<'a> Runtime<'a> {
                 } else {
                     self.lookup_var_mut(name)
                 }
-                .expect("Semantic analysis guarantees variable exists");
+                .ok_or_else(|| RuntimeError::new(RuntimeErrorKind::UndeclaredVariable, span))?;
                 match var {
                     Value::Array(arr) => Ok(arr),
                     _ => Err(RuntimeError::new_with_extras(
@@ -1340,7 +1349,7 @@ impl<'a> Runtime<'a> {
                 } else {
                     self.lookup_var_mut(base_var)
                 }
-                .expect("Semantic analysis guarantees variable exists");
+                .ok_or_else(|| RuntimeError::new(RuntimeErrorKind::UndeclaredVariable, span))?;
 
                 for (idx, index_span) in &evaluated_indices {
                     match slot {
@@ -1390,7 +1399,7 @@ impl<'a> Runtime<'a> {
                 } else {
                     self.lookup_var_mut(name)
                 }
-                .expect("Semantic analysis guarantees variable exists");
+                .ok_or_else(|| RuntimeError::new(RuntimeErrorKind::UndeclaredVariable, span))?;
                 match var {
                     Value::Host(host) => match host.get_mut() {
                         HostValue::ProcessCommand(command) => Ok(command),
@@ -1425,7 +1434,7 @@ impl<'a> Runtime<'a> {
                 } else {
                     self.lookup_var_mut(base_var)
                 }
-                .expect("Semantic analysis guarantees variable exists");
+                .ok_or_else(|| RuntimeError::new(RuntimeErrorKind::UndeclaredVariable, span))?;
 
                 for (idx, index_span) in &evaluated_indices {
                     match slot {
@@ -1518,9 +1527,13 @@ impl<'a> Runtime<'a> {
         }
     }
 
-    fn eval_string_expr(&mut self, expr: ExprRef<'a>, parts: &StringParts<'a>) -> Value<'a> {
+    fn eval_string_expr(
+        &mut self,
+        expr: ExprRef<'a>,
+        parts: &StringParts<'a>,
+    ) -> Result<Value<'a>, RuntimeError> {
         match parts {
-            StringParts::Static(content) => Value::Str(ArenaCow::borrowed(content)),
+            StringParts::Static(content) => Ok(Value::Str(ArenaCow::borrowed(content))),
             StringParts::Interpolated(segments) => {
                 let mut result = ArenaString::with_capacity_in(segments.len(), self.frame);
                 for (segment_idx, segment) in segments.iter().enumerate() {
@@ -1536,12 +1549,14 @@ impl<'a> Runtime<'a> {
                             } else {
                                 self.lookup_var_ref(var)
                             }
-                            .expect("Semantic analysis should guarantee variable exists");
+                            .ok_or_else(|| {
+                                RuntimeError::new(RuntimeErrorKind::UndeclaredVariable, expr.span())
+                            })?;
                             write!(result, "{value}").unwrap();
                         }
                     }
                 }
-                Value::Str(ArenaCow::owned(result))
+                Ok(Value::Str(ArenaCow::owned(result)))
             }
         }
     }
@@ -1570,7 +1585,12 @@ impl<'a> Runtime<'a> {
         }
     }
 
-    fn assign_bound_local(&mut self, local: LocalId, val: Value<'a>) {
+    fn assign_bound_local(
+        &mut self,
+        local: LocalId,
+        val: Value<'a>,
+        span: Span,
+    ) -> Result<(), RuntimeError> {
         let has_frame = self.has_frame_arena();
         let pool = &self.pool;
         let frame = self.frame;
@@ -1578,13 +1598,18 @@ impl<'a> Runtime<'a> {
         for scope in self.env.iter_mut().rev() {
             if let Some(slot) = scope.iter_mut().rev().find(|slot| slot.id == Some(local)) {
                 Self::overwrite_slot(&mut slot.value, val, has_frame, pool, frame);
-                return;
+                return Ok(());
             }
         }
-        unreachable!("Semantic analysis guarantees variable exists");
+        Err(RuntimeError::new(RuntimeErrorKind::UndeclaredVariable, span))
     }
 
-    fn assign_var(&mut self, name: &'a str, val: Value<'a>) {
+    fn assign_var(
+        &mut self,
+        name: &'a str,
+        val: Value<'a>,
+        span: Span,
+    ) -> Result<(), RuntimeError> {
         let has_frame = self.has_frame_arena();
         let pool = &self.pool;
         let frame = self.frame;
@@ -1592,10 +1617,10 @@ impl<'a> Runtime<'a> {
         for scope in self.env.iter_mut().rev() {
             if let Some(slot) = scope.iter_mut().rev().find(|slot| slot.name == name) {
                 Self::overwrite_slot(&mut slot.value, val, has_frame, pool, frame);
-                return;
+                return Ok(());
             }
         }
-        unreachable!("Semantic analysis guarantees variable exists");
+        Err(RuntimeError::new(RuntimeErrorKind::UndeclaredVariable, span))
     }
 
     /// Moves a function return value across a frame reset boundary.
@@ -1680,7 +1705,7 @@ impl<'a> Runtime<'a> {
         } else {
             self.lookup_var_mut(base_var)
         }
-        .expect("Semantic analysis guarantees variable exists");
+        .ok_or_else(|| RuntimeError::new(RuntimeErrorKind::UndeclaredVariable, span))?;
 
         for (i, (idx, index_span)) in evaluated_indices.iter().enumerate() {
             let is_last = i + 1 == evaluated_indices.len();
